@@ -171,7 +171,7 @@ def rule_reference_checked(ctx):
     from .common import sql_root
 
     prog = ctx.prog
-    for kind in ("COMMENT ON TABLE", "ALTER TABLE SET COMMENT"):
+    for kind in ("COMMENT ON TABLE", "ALTER TABLE SET COMMENT", "ALTER TABLE CLUSTER BY", "ALTER TABLE SET TAG", "ALTER COLUMN COMMENT"):
         for tr in traces(prog, kind):
             if tr.path.outcome != "return":
                 continue
@@ -184,9 +184,10 @@ def rule_reference_checked(ctx):
                     touched = True
             ctx.ob("C07.i", f"{kind}: the engine is asked about the named table", touched, "fakesnow/transforms.py")
             if not touched:
-                ctx.violation("C07.i", "transforms", "extract_comment_on_table", f"{kind}: table never referenced in an engine statement", "fakesnow/transforms.py",
-                              f"{kind} is replaced by the success no-op plus a side-table insert: no engine statement references the table, so "
-                              f"`comment on table nosuch is 'x'` succeeds instead of raising 2003/42S02")
+                ctx.violation("C07.i", "transforms", "extract_comment_on_table" if "COMMENT" in kind and "COLUMN" not in kind else "<stage>",
+                              f"{kind}: table never referenced in an engine statement", "fakesnow/transforms.py",
+                              f"{kind} is replaced by the success no-op (plus at most a side-table insert): no engine statement references the "
+                              f"table, so the statement succeeds on a table that does not exist instead of raising 2003/42S02")
 
 
 ENTRIES = [
